@@ -28,13 +28,13 @@ var solvers = []solverSpec{
 }
 
 type SolveOpts struct {
-	Dir       string // scratch directory for queries
-	Timeouts  []int  // per solver seconds
-	Parallel  int
-	Second    bool // thorough: require agreement of a second solver
-	Seed      int
-	KeepAll   bool
-	noCases   bool // internal: do not try the case split (already tried / being tried)
+	Dir      string // scratch directory for queries
+	Timeouts []int  // per solver seconds
+	Parallel int
+	Second   bool // thorough: require agreement of a second solver
+	Seed     int
+	KeepAll  bool
+	noCases  bool // internal: do not try the case split (already tried / being tried)
 }
 
 func runSolver(s solverSpec, file string, timeoutS int) (answer string, out string, secs float64) {
